@@ -50,6 +50,13 @@ def plan(tier, seed):
             cfgs.append(dict(sched=kind, table=tabs[0], rate=(8000 if kind == "DRR" else 8), flows=[0, 1],
                              sizes=([1000, 2000] if kind == "DRR" else [1, 2]), N=3 if quick else 4,
                              gaps=["S", "N", 1, 2], order=0, map="id", mon=mon))
+        # flow ids above the small-integer cache: equal ids are not identical objects
+        for mon in (None, "excl"):
+            c = dict(sched=kind, table=[[1000, tabs[0][0][1]], [1001, tabs[0][1][1]]], rate=(8000 if kind == "DRR" else 8), flows=[1000, 1001],
+                     sizes=([1000, 2000] if kind == "DRR" else [1, 2]), N=3, gaps=["S", "N", 1, 2], order=0, map="id")
+            if mon:
+                c["mon"] = mon
+            cfgs.append(c)
         # a rate that is not a whole number (same float arithmetic in the reference), and for DRR a packet of more than two quanta
         cfgs.append(dict(sched=kind, table=tabs[0], rate=(2500.5 if kind == "DRR" else 2.5), flows=[0, 1],
                          sizes=([1000, 4000] if kind == "DRR" else [1, 2]), N=nfull, gaps="G3", order=0, map="id"))
